@@ -373,7 +373,9 @@ func (doc *Document) Warnings() (warnings Warnings) {
 		warnings = appendWarnings(warnings, node, context)
 	}
 
-	return
+	// The same two people may be related through more than one family (or
+	// through duplicate family records). Report each pair once.
+	return warnings.oncePerPair()
 }
 
 // appendWarnings collects the warnings of node and of all of its descendants,
